@@ -55,6 +55,7 @@ class Engine(Core, ExprMixin, CallMixin, StmtMixin):
         self._keep_alive = []
         self.assuming_post = 0
         self.rec_limit = 2
+        self.fresh_objects = []
         self.collect_returns = None
         self.def_cache = {}
         self.loop_head = []
@@ -138,6 +139,10 @@ class Engine(Core, ExprMixin, CallMixin, StmtMixin):
         self.old_heap, self.old_env = self.fn_old_heap, self.fn_old_env
         for r in c.requires:
             self.assume(self.eval_spec(r, env, st, old_heap=self.fn_old_heap, old_env=env))
+        if self.mode == "UNROLL":
+            # extra hypotheses of the bounded stand-in only (stated in evidence); callers do not have to establish them
+            for r in c.bounded_requires:
+                self.assume(self.eval_spec(r, env, st, old_heap=self.fn_old_heap, old_env=env))
         n_pre = len(self.assumptions)
         self.collect_returns = []
         self.exec_block(fn.body, st)
@@ -171,8 +176,11 @@ class Engine(Core, ExprMixin, CallMixin, StmtMixin):
             env2 = dict(env)
             if c.returns is not None:
                 if v is None or v.ty.kind == "None":
-                    self.oblige("safe", "returns-a-value" + sfx, False, exit_st, fn)
-                    continue
+                    if c.returns.kind == "Opt":
+                        v = Val(TNone, self.S.none_val)       # falling off the end / bare return yields None
+                    else:
+                        self.oblige("safe", "returns-a-value" + sfx, False, exit_st, fn)
+                        continue
                 env2["result"] = self.coerce(v, c.returns, fn)
             if not (tag == "end" and len(exits) > 1):
                 self.probe("exit-reachable" + sfx, exit_st)
